@@ -94,28 +94,38 @@ class GrammarParser:
 
     def _parse_item(self):
         # item: '[' rhs ']' | atom ['+' | '*']
+        # Optional parts and repetitions get their own start and end states.
+        # Sharing them with the wrapped item would combine the skip arc of an
+        # option with the loop of a repetition at its start or end, e.g.
+        # `[NAME 'a'+]` would also accept `'a'`.
         if self.value == "[":
             self._gettoken()
             a, z = self._parse_rhs()
             self._expect(PythonTokenTypes.OP, ']')
+            aa = NFAState(self._current_rule_name)
+            zz = NFAState(self._current_rule_name)
+            aa.add_arc(a)
+            z.add_arc(zz)
             # Make it also possible that there is no token and change the
             # state.
-            a.add_arc(z)
-            return a, z
+            aa.add_arc(zz)
+            return aa, zz
         else:
             a, z = self._parse_atom()
             value = self.value
             if value not in ("+", "*"):
                 return a, z
             self._gettoken()
+            aa = NFAState(self._current_rule_name)
+            zz = NFAState(self._current_rule_name)
+            aa.add_arc(a)
+            z.add_arc(zz)
             # Make it clear that we can go back to the old state and repeat.
             z.add_arc(a)
-            if value == "+":
-                return a, z
-            else:
-                # The end state is the same as the beginning, nothing must
-                # change.
-                return a, a
+            if value == "*":
+                # Zero repetitions are fine as well.
+                aa.add_arc(zz)
+            return aa, zz
 
     def _parse_atom(self):
         # atom: '(' rhs ')' | NAME | STRING
